@@ -32,7 +32,7 @@ def dump_mir(src):
     fcntl.flock(lock, fcntl.LOCK_EX)
     try:
         msrc = os.path.join(CACHE, "src")
-        subprocess.check_call(["rsync", "-a", "--delete", "--exclude", "/target", "--exclude", "/guard/src/verif_harness",
+        subprocess.check_call(["rsync", "-rlpc", "--delete", "--exclude", "/target", "--exclude", "/guard/src/verif_harness",
                                os.path.join(src, "guard", "src") + "/", os.path.join(msrc, "guard", "src") + "/"]
                               ) if os.path.exists(msrc) else shutil.copytree(src, msrc, ignore=shutil.ignore_patterns("target", "verif_harness"))
         # the driver appended #[cfg(kani)] lines to some module files; they are inert without cfg(kani)
